@@ -674,3 +674,5 @@ func RunPlayCfg(c *h.Ctx, cfg h.TableCfg, po PlayOpts, mon *PlayMon) *Play {
 	}
 	return p
 }
+
+func newRand(seed int64) *rand.Rand { return rand.New(rand.NewSource(seed)) }
